@@ -1,4 +1,5 @@
 import UberjobModel.Lemmas.Stores
+import UberjobModel.Lemmas.JsonRoundtrip
 import UberjobModel.Props.C11
 /-!
 # C12 — stores return what was written and report modified times faithfully   (claimed: proof, PARTIAL)
@@ -320,6 +321,90 @@ theorem C12_text_store_utf8 {stg tgt : α} (hne : stg ≠ tgt) (s : Str) (fs : F
   exact (C12_text_store utf8 utf8_roundtrip hne s b fs hb).1
 end
 
+/-! ## JsonFileStore: `json.dump` / `json.load` are a model with a theorem, not a hypothesis (ints, strs, lists, dicts, bools, None) -/
+
+section Json
+open Uberjob.Json
+
+/-- the options `JsonFileStore.write` passes to `json.dump` in the CURRENT source (regenerated on every check) -/
+def jsonGenOpts : Opts :=
+  ⟨match Gen.TextCodec.jsonDumpIndent with | some n => .indent n | none => .compact, Gen.TextCodec.jsonDumpEnsureAscii⟩
+
+/-- what the round-trip theorems below need of the source: no key sorting, no other keyword argument of `json.dump`
+    (`default=`, `separators=`, `cls=` …: none is modelled), and `ensure_ascii` left on (so the text can be encoded whatever
+    the strings contain).  `indent` may be anything: the theorems hold for every layout. -/
+theorem C12_json_source_options :
+    Gen.TextCodec.jsonDumpSortKeys = false ∧ Gen.TextCodec.jsonDumpOtherKeywords = [] ∧ Gen.TextCodec.jsonDumpEnsureAscii = true := by
+  decide
+
+/-- **`json.loads(json.dumps(v, indent=…, ensure_ascii=…)) == v`**, same types, same dict order — for every layout (every
+    `indent`, or none), with and without `ensure_ascii`, every nesting depth, every size, every value built from `None`, bools,
+    ints, strs, lists and dicts with distinct str keys whose strings are Python strs (control characters, line terminators,
+    astral characters and LONE surrogates included) without a high surrogate immediately followed by a low one. -/
+theorem C12_json_roundtrip (o : Opts) (v : JV) (h : v.ok = true) : parse (render o 0 v) = .ok v :=
+  parse_render_top o v h
+
+/-- … and that last restriction is a real limit of `json`: the two halves are escaped separately and read back as ONE
+    astral character (the check observes the same on CPython). -/
+theorem C12_json_surrogate_pair_witness :
+    parse (render ⟨.indent 4, true⟩ 0 (.str [0xD800, 0xDC00])) = .ok (.str [0x10000]) := by decide
+
+/-- with `ensure_ascii` the text consists of printable ASCII and line feeds: no carriage return (so no newline mode can
+    change it) and nothing a text codec could refuse -/
+theorem C12_json_text_ascii (L : Layout) (v : JV) : ∀ c ∈ render ⟨L, true⟩ 0 v, c = 10 ∨ (32 ≤ c ∧ c ≤ 126) :=
+  render_ascii L v 0
+
+/-- `json.dump(value, file, <the source's options>)` / `json.load(file)` on the values of the domain -/
+def jsonSer : TextSer {v : JV // v.ok = true} where
+  enc v := some [render jsonGenOpts 0 v.1]
+  dec s := match parse s with
+    | .ok v => if h : v.ok = true then some ⟨v, h⟩ else none
+    | .error _ => none
+
+theorem jsonSer_roundtrip : jsonSer.Roundtrip := by
+  intro v chunks h
+  simp only [jsonSer, Option.some.injEq] at h
+  subst h
+  simp only [jsonSer, List.flatten_cons, List.flatten_nil, List.append_nil, parse_render_top jsonGenOpts v.1 v.2]
+  simp [v.2]
+
+theorem jsonGenOpts_ascii : jsonGenOpts = ⟨jsonGenOpts.layout, true⟩ := by
+  have := C12_json_source_options.2.2
+  simp [jsonGenOpts, this]
+
+theorem jsonSer_ascii (v : {v : JV // v.ok = true}) : ∀ c ∈ render jsonGenOpts 0 v.1, c = 10 ∨ (32 ≤ c ∧ c ≤ 126) := by
+  rw [jsonGenOpts_ascii]; exact render_ascii _ v.1 0
+
+theorem jsonSer_noCR : jsonSer.NoCR := by
+  intro v chunks h
+  simp only [jsonSer, Option.some.injEq] at h
+  subst h
+  simp only [List.flatten_cons, List.flatten_nil, List.append_nil]
+  intro hc
+  have := jsonSer_ascii v CR hc
+  simp [CR] at this
+
+variable {α : Type} [DecidableEq α]
+
+/-- **JsonFileStore(path, encoding="utf-8")** (and the default encoding where it is UTF-8), NO assumption left about `json`
+    or the codec: for every value of the domain — any nesting depth, any size, every code point — `read()` after `write(v)`
+    returns `v`, through the staged write, the text layer with the newline modes of the current source, and UTF-8. -/
+theorem C12_json_store_utf8 {stg tgt : α} (hne : stg ≠ tgt) (v : JV) (hv : v.ok = true) (fs : FS α) :
+    readValue (jsonCodec jsonSer utf8 posix Gen.TextCodec.jsonWriteNewline Gen.TextCodec.jsonReadNewline)
+      (writeValue jsonFileStore (jsonCodec jsonSer utf8 posix Gen.TextCodec.jsonWriteNewline Gen.TextCodec.jsonReadNewline)
+        true stg tgt ⟨v, hv⟩ fs).fs tgt = some ⟨v, hv⟩ := by
+  have hdom : ∀ c ∈ ([render jsonGenOpts 0 v] : List TextCodec.Str).flatten, c < 0x110000 ∧ isSurrogate c = false := by
+    intro c hc
+    simp only [List.flatten_cons, List.flatten_nil, List.append_nil] at hc
+    have := jsonSer_ascii ⟨v, hv⟩ c hc
+    simp only [isSurrogate, Bool.and_eq_false_iff, decide_eq_false_iff_not]
+    omega
+  obtain ⟨b, hb⟩ := Option.isSome_iff_exists.mp ((C12_utf8_domain _).mpr hdom)
+  exact C12_json_store jsonSer jsonSer_roundtrip jsonSer_noCR utf8 utf8_roundtrip hne ⟨v, hv⟩ [render jsonGenOpts 0 v] b fs rfl hb
+
+end Json
+
+
 example : decodeText .universal (encodeText posix .universal [97, 13, 10, 98, 13, 99, 10]) = [97, 10, 98, 10, 99, 10] := by decide
 example : decodeText Gen.TextCodec.textReadNewline (encodeText posix Gen.TextCodec.textWriteNewline [97, 13, 10, 98, 13]) = [97, 13, 10, 98, 13] := by decide
 example : utf8Enc [0x41, 0xE9, 0x20AC, 0x1F600] = some [0x41, 0xC3, 0xA9, 0xE2, 0x82, 0xAC, 0xF0, 0x9F, 0x98, 0x80] := by decide
@@ -336,5 +421,17 @@ example : (mountedWrite (ρ := Option Bytes) ⟨fun b _ => some b, id⟩ binaryF
 -- successive attempts: ok, failed, ok — mtimes none ≤ 1 ≤ 1 ≤ …
 example : ((runAttempts Cfg.gen 1 0 [⟨binaryFileStore, true, [.write [1]], noFaults⟩,
     ⟨binaryFileStore, true, [.write [2]], single 1 (.raise .osError 0)⟩] (freshDir 0 : FS Nat)).get 0) = some ⟨[1], 1⟩ := by decide
+-- json: a nested value with every kind of character, rendered as JsonFileStore writes it and read back
+example : Uberjob.Json.parse (Uberjob.Json.render jsonGenOpts 0
+    (.obj (.cons [107, 34, 10] (.arr (.cons (.int (-120)) (.cons (.str [0xD800, 92, 0x1F600, 13, 0x7F]) (.cons .null (.cons (.obj .nil) .nil))))) (.cons [] (.bool true) .nil))))
+    = .ok (.obj (.cons [107, 34, 10] (.arr (.cons (.int (-120)) (.cons (.str [0xD800, 92, 0x1F600, 13, 0x7F]) (.cons .null (.cons (.obj .nil) .nil))))) (.cons [] (.bool true) .nil))) :=
+  C12_json_roundtrip _ _ (by decide)
+example : Uberjob.Json.render ⟨.indent 4, true⟩ 0 (.arr (.cons (.int 1) (.cons (.str [233]) .nil)))
+    = [91, 10, 32, 32, 32, 32, 49, 44, 10, 32, 32, 32, 32, 34, 92, 117, 48, 48, 101, 57, 34, 10, 93] := by
+  simp [Uberjob.Json.render, Uberjob.Json.renderItems, Uberjob.Json.Layout.gap, Uberjob.Json.Layout.sgap, Uberjob.Json.nl, Uberjob.Json.encStr,
+    Uberjob.Json.escChar, Uberjob.Json.uEsc, Uberjob.Json.hex4, Uberjob.Json.hexDigit, Uberjob.Json.encInt, Uberjob.Json.natDigits, List.replicate]
+-- a duplicate key in the FILE: the later value, at the first position (what a Python dict does)
+example : Uberjob.Json.parse [123, 34, 97, 34, 58, 49, 44, 34, 98, 34, 58, 50, 44, 34, 97, 34, 58, 51, 125]
+    = .ok (.obj (.cons [97] (.int 3) (.cons [98] (.int 2) .nil))) := by decide
 
 end Uberjob.Stores
